@@ -22,7 +22,7 @@ theorem tooLongAux_line (l r : Str) (h : 10 ∉ l) :
   simp only [tooLongAux, Nat.zero_add, if_true]
   by_cases hm : maxToken ≤ l.length <;> simp [hm]
 
-theorem tooLong_nil : tooLong [] = false := by simp [tooLong, tooLongAux, maxToken]
+theorem tooLong_nil : tooLong [] = false := by simp [tooLong, tooLongAux, maxToken, Generated.C10.maxScanTokenSize]
 
 /-- a file of LF-terminated lines is refused iff one of its lines has `maxToken` bytes or more -/
 theorem tooLong_lines (ls : List Str) (h : ∀ l ∈ ls, 10 ∉ l) :
